@@ -434,7 +434,22 @@ func runRecoveryP(fields []string, logMode int) string {
 	if leak != "" {
 		leakBit = "1"
 	}
-	i := fmt.Sprintf("out=%s,logged=%s,status=%d,touched=%s,redacted=%s,route=%s,params=%s,reqline=%s,%s", out, logged, status, touched, redS, route, params, reqline, fu)
+	// the request-dump section of the record, byte for byte (the model runs the dump loop of recovery.go on the dump
+	// net/http writes for this request)
+	dumpS := "-"
+	if len(lh.records) > 0 {
+		msg := lh.msgs[0]
+		if a := strings.Index(msg, "Request Dump:\n"); a >= 0 {
+			sec := msg[a+len("Request Dump:\n"):]
+			if b := strings.Index(sec, "Stack:\n"); b >= 0 {
+				sec = sec[:b]
+			}
+			dumpS = hx(sec)
+		} else {
+			dumpS = "nodump"
+		}
+	}
+	i := fmt.Sprintf("out=%s,logged=%s,status=%d,touched=%s,redacted=%s,route=%s,params=%s,reqline=%s,dump=%s,%s", out, logged, status, touched, redS, route, params, reqline, dumpS, fu)
 	// the record of a recovered panic names the route, the parameters and the request line ("-" when nothing was logged)
 	recS := "-"
 	if len(lh.records) > 0 {
